@@ -154,11 +154,13 @@ def _exact_byte_need(x, f):
     return plain and has_size
 
 
-def check_remaining_len_taint(out, facts):
-    """R08.3"""
+def check_remaining_len_taint(out, facts, floor=True, only=None):
+    """R08.3 (only: predicate selecting the functions to examine, e.g. the derived code of the corpus)"""
     users = []
     for f in facts.fns:
         if not f.get('thir') or f['kind'] not in ('Fn', 'AssocFn'):
+            continue
+        if only is not None and not only(f):
             continue
         if f['ctx'] == 'trait_impl' and tname(f['trait']) == 'Input':
             continue
@@ -272,7 +274,8 @@ def check_remaining_len_taint(out, facts):
                 if g is not None and g not in users and g.get('thir'):
                     users.append(g)
                     caller_only.add(g['path'])
-    out.floor('R08.3', 'functions using remaining_len outside Input impls [%s]' % facts.cfg, len(users), 1)
+    if floor:
+        out.floor('R08.3', 'functions using remaining_len outside Input impls [%s]' % facts.cfg, len(users), 1)
 
 
 def check_concrete_inputs(out, facts):
@@ -281,6 +284,12 @@ def check_concrete_inputs(out, facts):
     for s in impls:
         out.ob('R08.4', 'Input impl census: %s [%s]' % (s, cfg), s in AUDITED_INPUTS,
                'unaudited `impl Input for %s`: decoding through it is not covered by the forwarding/shape rules' % s, impls[s]['loc'])
+    # the hidden zero-copy hook: its default goes through Vec<u8>::decode (bounded, validated); the only override whose
+    # shape is audited (R08.4 below) is the one of BytesCursor.  Any other input overriding it decodes `Bytes` by rules of
+    # its own that nothing here has checked (fail closed: a new override must be audited)
+    hk = sorted(i['self'] for i in impls.values() if any(it['name'] == 'scale_internal_decode_bytes' for it in i['items']))
+    out.ob('R08.4', 'scale_internal_decode_bytes overrides [%s]' % cfg, all(s in ('codec::BytesCursor',) for s in hk),
+           'the zero-copy Bytes hook is overridden by %s: only the BytesCursor override is audited' % [s for s in hk if s != 'codec::BytesCursor'], '-')
     # read_byte overrides (R08.2)
     rb = sorted(i['self'] for i in impls.values() if any(it['name'] == 'read_byte' for it in i['items']))
     okrb = all(any(w in s for w in ('CountedInput', 'DepthTrackingInput', 'MemTrackingInput')) for s in rb)
